@@ -69,7 +69,7 @@ func streamingDigest(v ssa.Value) (hash string, in ssa.Value, why string) {
 		if !uses {
 			return
 		}
-		if c.IsInvoke() && "Write" == c.Method.Name() && resolveCell(c.Value) == h && instrDominates(i, sum) && !canReach(locOf(i), i) {
+		if c.IsInvoke() && "Write" == c.Method.Name() && resolveCell(c.Value) == h && instrDominates(i, sum) && nil == (reachQ{From: locOf(i), Target: func(j ssa.Instruction) bool { return j == i }, Block: func(j ssa.Instruction) bool { return j == ssa.Instruction(ctor) }}).run() {
 			writes = append(writes, c.Args[0])
 			return
 		}
